@@ -6,7 +6,7 @@
      X * Y   -> x @ y                      Mul
      X / Y   -> x @ Y.inv()                Div
      X.inv()                               Inv
-     X ** n  -> np.linalg.matrix_power     Pow n   (modelled: iterated product; the inverse for n < 0)
+     X ** n  -> matrix_power(x, n), n >= 0;  X.inv() ** (-n), n < 0     Pow n   (iterated product of a, resp. of inv a)
      X.prod()-> identity @ x1 @ x2 ...     Prod    (left fold from the identity) *)
 From Coq Require Import ZArith List.
 Import ListNotations.
